@@ -50,6 +50,7 @@ type Case struct {
 	DisableNested bool        `json:"disable_nested"`
 	SkipDefault   bool        `json:"skip_default_tx"`
 	PoolShim      bool        `json:"pool_shim"` // gorm is opened on a ConnPool wrapper (ConnPoolBeginner path) instead of *sql.DB
+	ErrClass      string      `json:"err_class,omitempty"` // injected driver errors wrap this well-known error (simdrv.ClassError)
 	MaxSites      int         `json:"max_sites"`
 	Pairs         bool        `json:"pairs"`
 	Pick          int64       `json:"pick_seed"`
@@ -165,6 +166,9 @@ func (Prop) Gen(r *core.Rand, tier string) interface{} {
 	} else {
 		c.MaxSites = 40
 	}
+	if r.Chance(40) {
+		c.ErrClass = r.Pick(simdrv.Classes)
+	}
 	return c
 }
 
@@ -218,6 +222,7 @@ func (Prop) Shrink(ci interface{}) []interface{} {
 		func(v *Case) bool { x := v.DisableNested; v.DisableNested = false; return x },
 		func(v *Case) bool { x := v.SkipDefault; v.SkipDefault = false; return x },
 		func(v *Case) bool { x := v.PoolShim; v.PoolShim = false; return x },
+		func(v *Case) bool { x := v.ErrClass != ""; v.ErrClass = ""; return x },
 	} {
 		v := *c
 		if f(&v) {
@@ -976,6 +981,7 @@ func (p Prop) Run(ci interface{}, focus *core.Violation) *core.Outcome {
 			sites = append(sites, ops.Fault{Cancel: &ops.CancelFault{ID: id, K: k, At: pt}})
 		}
 		ops.SortFaults(sites)
+		ops.ApplyClass(sites, c.ErrClass)
 		for i := range sites {
 			if sites[i].Drv != nil && sites[i].Drv.Kind == "next" && sites[i].Drv.Row > 1 {
 				continue
